@@ -170,9 +170,49 @@ func IsCoinbaseTx(tx *wire.MsgTx) bool {
 	return p.Index == 0xffffffff && p.Hash == chainhash.Hash{}
 }
 
-// Unspendable outputs never enter the set: OP_RETURN-first or larger than 10 000 bytes.
+// Unspendable outputs never enter the set: OP_RETURN-first, larger than 10 000 bytes, or not parseable as a
+// sequence of opcodes (a push that runs past the end of the script): none of them can ever be spent.
 func Unspendable(pk []byte) bool {
-	return (len(pk) > 0 && pk[0] == 0x6a) || len(pk) > 10000
+	return (len(pk) > 0 && pk[0] == 0x6a) || len(pk) > 10000 || !Parses(pk)
+}
+
+// Parses reports whether the script is a well-formed sequence of opcodes: every push opcode is followed by the
+// length bytes and the data it announces.
+func Parses(pk []byte) bool {
+	for i := 0; i < len(pk); {
+		op := pk[i]
+		i++
+		var n, lenBytes int
+		switch {
+		case op >= 0x01 && op <= 0x4b:
+			n = int(op)
+		case op == 0x4c:
+			lenBytes = 1
+		case op == 0x4d:
+			lenBytes = 2
+		case op == 0x4e:
+			lenBytes = 4
+		default:
+			continue
+		}
+		if lenBytes > 0 {
+			if i+lenBytes > len(pk) {
+				return false
+			}
+			for j := lenBytes - 1; j >= 0; j-- {
+				n = n<<8 | int(pk[i+j])
+			}
+			i += lenBytes
+			if n < 0 {
+				return false
+			}
+		}
+		if n > len(pk)-i {
+			return false
+		}
+		i += n
+	}
+	return true
 }
 
 // Utxo is the unspent-output set after this block, by definition the parent's set with this block's
